@@ -8,11 +8,11 @@ CONSTANTS
   CheckManifest = TRUE
   ExportInclusive = TRUE
   Firsts = {0, 3}
-  MaxLen = 4
+  MaxLen = 3
   F = 2
   Tables <- TablesSmall
   MaxBlocks = 0
   SpaceInsts = {}
   SpaceDeltas = {}
-INVARIANTS StoresWellFormed RoundTrip RejectsCorrupt
+INVARIANTS StoresWellFormed RoundTrip RejectsCorrupt TrailingJunk
 CHECK_DEADLOCK FALSE
